@@ -863,6 +863,19 @@ func searchResult(d *dawg.Dawg, srch []dawg.Searcher) (string, error) {
 	for i := range ws {
 		fmt.Fprintf(&sb, "%q#%d ", ws[i], ids[i])
 	}
+	// each returned word is a value of its own: appending to one must not change another
+	snap := make([]string, len(ws))
+	for i := range ws {
+		snap[i] = string(ws[i])
+	}
+	for i := range ws {
+		ws[i] = append(ws[i], 'X', 'Y', 'Z')
+	}
+	for i := range ws {
+		if string(ws[i][:len(ws[i])-3]) != snap[i] {
+			return "", fmt.Errorf("Search: word #%d was %q and reads %q after the caller appended to the other returned words", i, snap[i], ws[i][:len(ws[i])-3])
+		}
+	}
 	// the words and ranks returned belong to the caller: overwrite them (a later Search must not be affected)
 	for i := range ws {
 		for j := range ws[i] {
